@@ -30,14 +30,20 @@ RULE = ("seeded entries (headers with inner blanks/'>'/';'/unicode; nucleotide, 
 TRUSTED = ["str.splitlines/'\\n'.join (TextFile.read/write) modelled as identity on lines without line breaks",
            "urllib.parse.quote/unquote modelled from their source (byte scanner); UTF-8 codec trusted",
            "re (qualifier splitting), float()/str(float), numpy int8 arithmetic modelled by documented semantics"]
-ASSUMPTIONS = ["GenBank qualifier text and ORIGIN block, Sequence<->string conversion and GFF ID grouping are "
-               "exercised by the oracle only (not modelled in Lean)",
+ASSUMPTIONS = ["GenBank qualifier text and ORIGIN block and Sequence<->string conversion are exercised by the oracle only "
+               "(not modelled in Lean)",
                "headers / identifiers / field values contain no line-break characters; qualifier values contain no '\"'"]
-LEVEL_TEXT = ("Lean theorems (all inputs): FASTA round trip for every wrap width >= 1, FASTQ state machine under any "
-              "wrapping + offset arithmetic, GenBank location print/parse round trip, GFF percent-quoting and line "
-              "round trip, index = reindex(lines) after edits; correspondence of the executable model with the real "
-              "classes op by op; oracle write->read on the whole formats")
-LEVEL_NOTE = "see notes/C12.md: qualifier scanner, ORIGIN, ID-grouping are exercised, not proved"
+LEVEL_TEXT = ("Lean theorems (all inputs, no size bound): FASTA round trip for every wrap width >= 1; FASTQ length-driven state "
+              "machine under any wrapping (no condition on score characters) + int8 offset arithmetic + full round trip; GenBank "
+              "location print/parse round trip at character level for every expressible location; GFF percent-quoting "
+              "(quote and _quote_value) invertible and delimiter-free, GFF line round trip for all strings (no whitespace "
+              "hypothesis since the writer was repaired), ID-grouped locations (get_annotation inverts set_annotation's "
+              "expansion); index = reindex(lines) after set/replace/insert/delete for FastaFile, FastqFile, GFFFile and "
+              "GenBankFile (block representation preserved by the position-shifting updates). Gen obligations on "
+              "_NOT_QUOTED, _OFFSETS, GenBank column constants. Executable model tied to the real classes op by op; "
+              "oracle write->read on whole formats. Not proved (oracle only): GenBank qualifier text scanner, ORIGIN block, "
+              "Sequence-object conversion")
+LEVEL_NOTE = "see notes/C12.md: 13 defects found and repaired in /repo (fix: commits), no open known findings"
 TECHNIQUE = "Lean 4 proof (induction over lines / entries / characters) + correspondence + regenerated tables"
 
 NUC = "ACGT"
@@ -425,6 +431,9 @@ def c_gff_parse(rng):
     if rng.random() < 0.2:
         cols = cols[:rng.randint(0, 8)]
     line = rng.choice(["", " "]) + "\t".join(cols) + rng.choice(["", " ", "\t"])
+    # escapes of single bytes >= 0x80 are not valid UTF-8: `unquote` then substitutes U+FFFD, which is the
+    # codec's business (outside the model, which works on bytes) -> keep hand-made escapes in the ASCII range
+    line = re.sub(r"%([89a-fA-F])(?=[0-9a-fA-F])", "%4", line)
     return {"kind": "gff_parse", "ops": [f"gff_parse {es(line)}"]}
 
 
@@ -466,6 +475,25 @@ def c_gff_edit(rng):
             ops.append(f"gff_get {rng.randint(-n - 1, n)}")
     ops.append("gff_reread")
     return {"kind": "gff_edit", "ops": ops, "spec": {"o": "gff_hist", "hist": hist}}
+
+
+def c_gff_group(rng):
+    """entries as get_annotation sees them: consecutive entries with the same ID form one feature"""
+    ents = []
+    for _ in range(rng.randint(0, 6)):
+        a = rng.choice([1, 5, 20, 100])
+        at = {}
+        r = rng.random()
+        if r < 0.7:
+            at["ID"] = rng.choice(["a", "b", "a", "c"])
+        if rng.random() < 0.5:
+            at[rng.choice(["Name", "note"])] = rng.choice(["x", "y z", ""])
+        if r >= 0.7 and r < 0.8:
+            at = {"Name": "n", "ID": "a"}
+        ents.append([rng.choice(["gene", "CDS", "exon"]), a, a + rng.choice([0, 3, 10]), rng.choice(["+", "-", "+", "."]), at])
+    enc = ";".join(":".join([es(t), str(a), str(b), sd, ("|".join(es(k) + "~" + es(v) for k, v in at.items()) if at else "-")])
+                   for t, a, b, sd, at in ents) if ents else "-"
+    return {"kind": "gff_group", "ops": [f"gff_group {enc}"]}
 
 
 def c_gff_text(rng):
@@ -605,7 +633,7 @@ def c_seq_conv(rng):
 
 GENS = [(c_fasta_rt, 8), (c_fasta_edit, 8), (c_fasta_text, 4), (c_fastq_rt, 8), (c_fastq_edit, 6), (c_fastq_text, 4),
         (c_fastq_offset, 2), (c_loc, 10), (c_loc_parse, 6), (c_gff_quote, 4), (c_gff_line, 8), (c_gff_parse, 3),
-        (c_gff_edit, 8), (c_gff_text, 3), (c_gb_edit, 8), (c_gb_text, 3), (c_wrap, 2), (c_genbank, 10), (c_gff_annot, 5),
+        (c_gff_edit, 8), (c_gff_group, 5), (c_gff_text, 3), (c_gb_edit, 8), (c_gb_text, 3), (c_wrap, 2), (c_genbank, 10), (c_gff_annot, 5),
         (c_seq_conv, 4)]
 
 
@@ -798,6 +826,22 @@ def _run_impl(case):
             elif k == "gff_parse":
                 g = GFFFile(); g.lines = [ds(w[1])]; g._entries = [0]
                 out.append("ok " + _gff_entry_out(g[0]))
+            elif k == "gff_group":
+                from biotite.sequence.annotation import Location
+                import biotite.sequence.io.gff as gffmod
+                g = GFFFile()
+                if w[1] != "-":
+                    for t in w[1].split(";"):
+                        ty, a, b, sd, at = t.split(":")
+                        g.append("s", "src", ds(ty), int(a), int(b), None,
+                                 {"+": Location.Strand.FORWARD, "-": Location.Strand.REVERSE, ".": None}[sd], None, dict(dpairs(at)))
+                feats = []
+                for f in gffmod.get_annotation(g):
+                    locs = sorted({f"{l.first}/{l.last}/" + ("+" if l.strand == Location.Strand.FORWARD else "-" if l.strand == Location.Strand.REVERSE else ".") for l in f.locs})
+                    att = "|".join(es(k2) + "~" + es(v2) for k2, v2 in f.qual.items()) if f.qual else "-"
+                    feats.append(f"{es(f.key)}:{'|'.join(locs)}:{att}")
+                feats = sorted(set(feats))
+                out.append("ok " + (";".join(feats) if feats else "-"))
             elif k == "gff_new":
                 st = GFFFile(); out.append(_gff_state(st))
             elif k == "gff_read":
@@ -1278,7 +1322,7 @@ def oracle(case):
 
 
 def nontrivial(case, impl_out):
-    if case.get("ops") and len(case["ops"]) >= 2:
+    if case.get("ops") and (len(case["ops"]) >= 2 or (case.get("kind") == "gff_group" and ";" in case["ops"][0])):
         return True
     if impl_out and any(o.startswith("ERR") or o == "skip" for o in impl_out):
         return True
